@@ -58,3 +58,20 @@ Print Assumptions C18_native_distributes_over_aligned_chunks.
 Theorem C18_zero_mask_is_identity : forall d, mask_ref (0 :: 0 :: 0 :: 0 :: nil)%N d = d.
 Proof. exact mask_ref_zero. Qed.
 Print Assumptions C18_zero_mask_is_identity.
+
+(* Sender and receiver may run on machines of different endianness, one with the native
+   routine and one without: unmasking what the other side masked recovers the payload. *)
+Theorem C18_native_roundtrip :
+  forall e e' m d, length m = 4 -> bytes m -> bytes d ->
+    exists x, mask_c_desc c_desc e m d = Some x /\ bytes x /\ length x = length d /\
+              mask_c_desc c_desc e' m x = Some d /\ mask_py m x = Some d.
+Proof.
+  intros e e' m d Hm Bm Bd. exists (mask_ref m d).
+  assert (Bx : bytes (mask_ref m d)) by (apply mask_ref_bytes; assumption).
+  split; [apply C18_native_equals_reference; assumption|].
+  split; [exact Bx|]. split; [apply mask_ref_length|].
+  rewrite <- C18_native_equals_python with (e := e') by assumption.
+  rewrite C18_native_equals_reference by assumption.
+  rewrite mask_ref_involutive. split; reflexivity.
+Qed.
+Print Assumptions C18_native_roundtrip.
